@@ -114,7 +114,9 @@ class DualQuaternion:
         """
         a = self.real * self.real.conj()
         b = self.real * self.dual.conj() + self.dual * self.real.conj()
-        return (base.sqrt(a.s), base.sqrt(b.s))
+        # square root of the dual number (a.s, b.s)
+        norm = base.sqrt(a.s)
+        return (norm, b.s / (2 * norm))
 
     def conj(self):
         r"""
